@@ -9,15 +9,6 @@ From CC Require Import Base.Prelude Base.Scalar Base.Ty Base.Shape Graph.Value G
   Model.RingEval Model.MpcCompile Model.MpcCompileSem Proofs.MpcCompileBase Proofs.MpcCompileStatic
   Proofs.MpcCompileTyping Proofs.MpcCompileReshare.
 
-(* the fragment of the theorem *)
-Definition thm_op (o : op) : bool :=
-  match o with
-  | OInput t | OZeros t | OOnes t | OConstant t _ => is_leaf t
-  | OAdd | OSubtract | OMultiply => true
-  | _ => is_lin_op o
-  end.
-Definition thm_frag (nodes : list node) : bool := forallb (fun nd => thm_op (n_op nd)) nodes.
-
 (* ---------- sets ---------- *)
 Lemma mem_insert d i p : mem d (set_insert i p) = (d =? i) || mem d p.
 Proof.
@@ -124,16 +115,9 @@ Section Correct.
   Notation mono := (mono R).
   Notation reshare_sem := (reshare_sem R r0 r1 radd rmul rsub ropp Rth atom catom one lin bil).
 
-  (* relation between the source value and the compiled value of a node *)
-  Definition rel (p : bool) (vs vc : rv) : Prop :=
-    if p then exists x a b c, vs = L x /\ vc = T3 a b c /\ radd (radd a b) c = x else vc = vs.
-
-  (* inputs of the compiled graph: a private input is presented as three shares *)
-  Inductive inrel : list bool -> list rv -> list rv -> Prop :=
-  | inrel_nil fl : inrel fl [] []
-  | inrel_pub fl v s c : inrel fl s c -> inrel (false :: fl) (v :: s) (v :: c)
-  | inrel_priv fl x a b c0 s c : radd (radd a b) c0 = x -> inrel fl s c ->
-                                 inrel (true :: fl) (L x :: s) (T3 a b c0 :: c).
+  Notation rel := (rel R radd).
+  Notation inrel := (inrel R radd).
+  Notation keys_input := (keys_input R).
 
   Definition keys_ok (keys : option Z) (env : list rv) : Prop :=
     forall k, keys = Some k -> exists kv0 kv1 kv2, znth env k = Ok (RTup R [kv0; kv1; kv2]).
@@ -569,9 +553,6 @@ Section Correct.
   Qed.
 
   (* ---------- compile_graph ---------- *)
-  Definition keys_input (use_mul : bool) (kv0 kv1 kv2 : rv) : list rv :=
-    if use_mul then [RTup R [kv0; kv1; kv2]] else [].
-
   Theorem compile_graph_correct nodes output flags out oo omap priv um :
     compile_graph_map nodes output flags = Ok (out, oo, omap) ->
     propagate_private_annotations nodes flags = Ok (priv, um) ->
